@@ -12,7 +12,7 @@ use crate::{
   messages::submessages::{
     elements::serialized_payload::SerializedPayload,
     submessage::{ReaderSubmessage, WriterSubmessage},
-    submessages::HEARTBEAT_Flags,
+    submessages::{AckNack, HEARTBEAT_Flags},
   },
   network::udp_sender::verif_harness_env_udp as env_udp,
   rtps::submessage::{Submessage, SubmessageBody},
@@ -44,6 +44,28 @@ pub(crate) fn stub_status_try_send<T>(
   }
   core::mem::forget(t);
   Ok(())
+}
+
+/// Kani-side mailbox standing in for the DataWriter -> Writer command channel.  The real
+/// mio-extras/std channel keeps its slots in a heap buffer; values read back from it are no
+/// longer constants for CBMC's symbolic execution, so `match cc` in process_writer_command
+/// explored the DDSData arm as well and the run did not finish (900 s / 10 GB).  The stub
+/// hands over exactly the command the harness posted, once.
+#[cfg(kani)]
+pub(crate) static mut MAILBOX: Option<WriterCommand> = None;
+#[cfg(kani)]
+pub(crate) fn stub_cmd_try_recv<T>(_this: &mio_channel::Receiver<T>) -> Result<T, std::sync::mpsc::TryRecvError> {
+  unsafe {
+    match (*core::ptr::addr_of_mut!(MAILBOX)).take() {
+      Some(c) => {
+        assert!(core::mem::size_of::<T>() == core::mem::size_of::<WriterCommand>());
+        let t: T = core::mem::transmute_copy(&c);
+        core::mem::forget(c);
+        Ok(t)
+      }
+      None => Err(std::sync::mpsc::TryRecvError::Empty),
+    }
+  }
 }
 
 #[cfg(kani)]
@@ -416,6 +438,20 @@ impl WRig {
     }
   }
 
+  /// hand a command to the writer the way the DataWriter does
+  pub fn post(&mut self, c: WriterCommand) {
+    #[cfg(kani)]
+    unsafe {
+      *core::ptr::addr_of_mut!(MAILBOX) = Some(c);
+    }
+    #[cfg(not(kani))]
+    {
+      let r = self.cmd_tx.try_send(c);
+      assert!(r.is_ok());
+      core::mem::forget(r);
+    }
+  }
+
   pub fn finish(self) {
     core::mem::forget(self);
   }
@@ -435,6 +471,7 @@ macro_rules! writer_harness {
       kani::stub(Writer::send_status, stub_send_status),
       kani::stub(Writer::send_participant_status, stub_send_participant_status),
       kani::stub(crate::dds::statusevents::StatusChannelSender::try_send, stub_status_try_send),
+      kani::stub(mio_extras::channel::Receiver::try_recv, stub_cmd_try_recv),
       kani::stub(crate::structure::time::Timestamp::now, crate::structure::time::verif_harness_env_time::stub_now),
       kani::stub(std::time::Instant::now, crate::structure::time::verif_harness_env_time::stub_instant_now),
       kani::stub(crate::mio_source::make_poll_channel, crate::mio_source::verif_harness_env_mio::stub_make_poll_channel),
@@ -546,3 +583,106 @@ cleaning!(c04_cleaning_kl2_reliable, KL2, 2, 2, 0);
 cleaning!(c04_cleaning_kl2_reliable_reliable, KL2, 2, 2, 2);
 cleaning!(c04_cleaning_default_reliable, None, 1, 2, 0);
 cleaning!(c04_cleaning_default_besteffort, None, 1, 1, 0);
+
+// ==================================================================== C20: wait_for_acknowledgments
+
+fn acknack_from(n: u8, base: i64) -> AckSubmessage {
+  AckSubmessage::AckNack(AckNack {
+    reader_id: reader_guid(n).entity_id,
+    writer_id: my_guid().entity_id,
+    reader_sn_state: crate::structure::sequence_number::verif_harness_seqnum::sn_set_from_bits(base, 0, 0),
+    count: 1,
+  })
+}
+
+/// `written` samples in history; reader 1 reliable with ANY acknowledged-before value, reader 2
+/// of concrete kind k2 (0 absent, 1 best effort, 2 reliable with any acked-before); the wait
+/// command; then one event (ACKNACK with any base from reader 1 or 2, or loss of reader 1/2).
+/// Success is reported exactly when every reliable reader matched at the call has acked all
+/// samples written before the call or was lost; at once if that already holds; once only.
+fn wait_case(written: i64, k2: u8, via_handle_ack_nack: bool) {
+  let mut rig = make_wrig(writer_qos(true, Some(policy::History::KeepAll), true));
+  let mut s = 1;
+  while s <= written {
+    rig.store(s, 0);
+    s += 1;
+  }
+  rig.match_reader(1, true);
+  let a1 = vk::range_i64(0, written + 2);
+  rig.writer.readers.get_mut(&reader_guid(1)).unwrap().all_acked_before = SequenceNumber::new(a1);
+  let mut a2 = 0;
+  if k2 != 0 {
+    rig.match_reader(2, k2 == 2);
+    if k2 == 2 {
+      a2 = vk::range_i64(0, written + 2);
+      rig.writer.readers.get_mut(&reader_guid(2)).unwrap().all_acked_before = SequenceNumber::new(a2);
+    }
+  }
+  let _ = rig.take_out();
+  // ghost: who still has to acknowledge (a reader has acked everything written before the
+  // call iff its acknowledged-before value exceeds the last written SN; nothing written =>
+  // nothing to acknowledge)
+  let mut pend1 = written >= 1 && a1 <= written;
+  let mut pend2 = k2 == 2 && written >= 1 && a2 <= written;
+
+  let (all_acked, done_rx) = sync_status_channel::<()>(CHAN).unwrap();
+  rig.post(WriterCommand::WaitForAcknowledgments { all_acked });
+  rig.writer.process_writer_command();
+  let c0 = rig.completions(&done_rx);
+  assert!((c0 == 1) == (!pend1 && !pend2), "success not reported at once although everything was acknowledged, or reported too early");
+  assert!(c0 <= 1);
+
+  // one event
+  let who = vk::range_u8(1, 2);
+  if vk::any::<bool>() {
+    let base = vk::range_i64(0, written + 2);
+    if via_handle_ack_nack {
+      // the whole ACKNACK path of the writer
+      let ack = acknack_from(who, base);
+      rig.writer.handle_ack_nack(prefix(who), &ack);
+      core::mem::forget(ack);
+    } else {
+      // the unit where the decision is taken; Writer::handle_ack_nack calls it with
+      // (GUID of the acknowledging reader, Some(ACKNACK base)) before anything else
+      rig.writer.update_ack_waiters(reader_guid(who), Some(SequenceNumber::new(base)));
+    }
+    if base > written {
+      if who == 1 {
+        pend1 = false;
+      } else {
+        pend2 = false;
+      }
+    }
+  } else {
+    rig.writer.reader_lost(reader_guid(who));
+    if who == 1 {
+      pend1 = false;
+    } else {
+      pend2 = false;
+    }
+  }
+  let c1 = rig.completions(&done_rx);
+  assert!(c1 <= 1, "more than one completion for one wait");
+  assert!((c1 == 1) == (c0 == 1 || (!pend1 && !pend2)), "completion does not follow the acknowledgment state");
+  vk_cover!(c0 == 0 && c1 == 1, "completed by the event");
+  vk_cover!(c0 == 0 && c1 == 0, "still waiting after the event");
+  vk_cover!(c0 == 1, "completed at once");
+  core::mem::forget(done_rx);
+  rig.finish();
+}
+
+macro_rules! wait_h {
+  ($name:ident, $written:expr, $k2:expr, $via:expr) => {
+    writer_harness! {
+    fn $name(7) {
+      wait_case($written, $k2, $via);
+    }
+    }
+  };
+}
+wait_h!(c20_wait_w2_one_reliable, 2, 0, false);
+wait_h!(c20_wait_w2_reliable_besteffort, 2, 1, false);
+wait_h!(c20_wait_w2_two_reliable, 2, 2, false);
+wait_h!(c20_wait_w0_one_reliable, 0, 0, false);
+wait_h!(c20_wait_w1_two_reliable, 1, 2, false);
+wait_h!(c20_wait_w2_one_reliable_full_acknack_path, 2, 0, true);
